@@ -24,7 +24,7 @@ def oracle(chk, p, r, m):
                 chk.fail_oracle("order:cycle-emitted", f"{b['builder']}/{b['app']} has a build-dependency cycle but statements were emitted", {"project": p})
     for b in projcheck.built(r):
         key = (b["builder"], b["app"])
-        if len(prod.get(b["outfile"], [])) != 1:
+        if len(prod.get(b["outfile"], [])) != 1 or ninjaparse.ambiguous(pn, b["outfile"], prod):
             chk.count("skipped:outfile-has-several-producers (C06)")
             continue
         names = [x["name"] for x in b["modules"]]
